@@ -134,6 +134,11 @@ func (r *Reader) readRecord() (*record, error) {
 	// Read payload
 	data := make([]byte, length)
 	if _, err := io.ReadFull(r.reader, data); err != nil {
+		if err == io.EOF {
+			// The header is there but not a single payload byte: the record was cut
+			// right behind its header. This is a torn record, not a clean end of file.
+			err = io.ErrUnexpectedEOF
+		}
 		return nil, err
 	}
 
